@@ -23,6 +23,10 @@
 #include <signal.h>
 #include <unistd.h>
 #include "vi.h"
+#ifdef NEATVI_VERIF
+#define VERIF_IMPL
+#include "verif.h"
+#endif
 
 /* parts of the screen to update; returned from vc_* functions */
 #define VC_COL	1	/* only obtain cursor column from xoff */
@@ -284,9 +288,26 @@ char *ex_read(char *msg)
 	return sbuf_done(sb);
 }
 
+#ifdef NEATVI_VERIF
+static void vi_verif_out(char *kind, char *s)
+{
+	if (verif_on()) {
+		struct sbuf *sb = verif_rec("out");
+		verif_key(sb, "kind");
+		sbuf_printf(sb, "\"%s\"", kind);
+		verif_key(sb, "s");
+		verif_hex(sb, s, -1);
+		verif_emit(sb);
+	}
+}
+#endif
+
 /* show an ex message */
 void ex_show(char *msg)
 {
+#ifdef NEATVI_VERIF
+	vi_verif_out("show", msg);
+#endif
 	if (xvis) {
 		snprintf(vi_msg, sizeof(vi_msg), "%s", msg);
 	} else if (xled) {
@@ -300,6 +321,9 @@ void ex_show(char *msg)
 /* print an ex output line */
 void ex_print(char *line)
 {
+#ifdef NEATVI_VERIF
+	vi_verif_out("print", line);
+#endif
 	if (vi_insert) {
 		led_print(line, xrows, 0, xhl ? "---" : "___");
 		term_pos(xrow - xtop, 0);
@@ -1455,6 +1479,32 @@ static int vc_quick(int newwin)
 	return VC_WIN;
 }
 
+#ifdef NEATVI_VERIF
+static int vi_verif_done;	/* the previous iteration of vi() reached its end */
+
+/* state at a command boundary of vi(): top of its loop and after it */
+static void vi_verif_state(int xcol)
+{
+	if (verif_on()) {
+		struct sbuf *sb = verif_rec("vi");
+		verif_keys(sb);
+		verif_int(sb, "done", vi_verif_done);
+		verif_int(sb, "quit", xquit);
+		verif_int(sb, "xcol", xcol);
+		verif_int(sb, "rows", xrows);
+		verif_int(sb, "cols", xcols);
+		verif_int(sb, "w_cnt", w_cnt);
+		verif_int(sb, "w_cur", w_cur);
+		verif_int(sb, "printed", vi_printed);
+		verif_key(sb, "msg");
+		verif_hex(sb, vi_msg, -1);
+		ex_verif_state(sb);
+		verif_emit(sb);
+	}
+	vi_verif_done = 0;
+}
+#endif
+
 static void sigwinch(int signo)
 {
 	vi_back(TK_CTL('l'));
@@ -1479,6 +1529,9 @@ static void vi(void)
 	while (!xquit) {
 		int mod = 0;
 		int nrow = xrow;
+#ifdef NEATVI_VERIF
+		vi_verif_state(xcol);
+#endif
 		int noff = ren_noeol(lbuf_get(xb, xrow), xoff);
 		int otop = xtop;
 		int oleft = xleft;
@@ -1841,7 +1894,13 @@ static void vi(void)
 				ren_cursor(lbuf_get(xb, xrow), xcol)));
 		term_commit();
 		lbuf_modified(xb);
+#ifdef NEATVI_VERIF
+		vi_verif_done = 1;
+#endif
 	}
+#ifdef NEATVI_VERIF
+	vi_verif_state(xcol);
+#endif
 }
 
 int main(int argc, char *argv[])
@@ -1879,6 +1938,10 @@ int main(int argc, char *argv[])
 			term_done();
 		ex_done();
 	}
+#ifdef NEATVI_VERIF
+	if (verif_on())
+		verif_emit(verif_rec("exit"));
+#endif
 	free(w_path);
 	reg_done();
 	syn_done();
